@@ -78,6 +78,11 @@ func (q MetricTicks) In64ths(deltaTicks uint32) uint32 {
 
 // Duration returns the time.Duration for a number of ticks at a certain tempo (in fractional BPM)
 func (q MetricTicks) Duration(fractionalBPM float64, deltaTicks uint32) time.Duration {
+	return q.duration64(fractionalBPM, int64(deltaTicks))
+}
+
+// duration64 is Duration for tick counts that may exceed 32 bits (absolute positions in long files)
+func (q MetricTicks) duration64(fractionalBPM float64, deltaTicks int64) time.Duration {
 	if q == 0 {
 		q = defaultMetric
 	}
